@@ -195,6 +195,16 @@ impl fmt::Display for Check {
     }
 }
 
+impl Check {
+    /// converts a parsed check, refusing public keys that are not valid keys
+    pub(super) fn from_parsed(c: biscuit_parser::builder::Check) -> Result<Self, error::Token> {
+        for query in &c.queries {
+            super::scope::check_parsed_scopes(&query.scopes)?;
+        }
+        Ok(c.into())
+    }
+}
+
 impl From<biscuit_parser::builder::Check> for Check {
     fn from(c: biscuit_parser::builder::Check) -> Self {
         Check {
@@ -212,10 +222,10 @@ impl TryFrom<&str> for Check {
     type Error = error::Token;
 
     fn try_from(value: &str) -> Result<Self, Self::Error> {
-        Ok(biscuit_parser::parser::check(value)
+        let (_, check) = biscuit_parser::parser::check(value)
             .finish()
-            .map(|(_, o)| o.into())
-            .map_err(biscuit_parser::error::LanguageError::from)?)
+            .map_err(biscuit_parser::error::LanguageError::from)?;
+        Check::from_parsed(check)
     }
 }
 
@@ -223,9 +233,9 @@ impl FromStr for Check {
     type Err = error::Token;
 
     fn from_str(s: &str) -> Result<Self, Self::Err> {
-        Ok(biscuit_parser::parser::check(s)
+        let (_, check) = biscuit_parser::parser::check(s)
             .finish()
-            .map(|(_, o)| o.into())
-            .map_err(biscuit_parser::error::LanguageError::from)?)
+            .map_err(biscuit_parser::error::LanguageError::from)?;
+        Check::from_parsed(check)
     }
 }
